@@ -245,6 +245,11 @@ def run_case(case):
         text = build.pdb_text(atoms)
         tag = "grid"
         n_ends = 2
+    elif mode == "mixed":
+        atoms, info = corpus.build_mixed(case["name"])
+        text = build.pdb_text(atoms)
+        tag = "mixed:" + case["name"]
+        n_ends = 2
     elif mode == "layout":
         atoms, info, n_ends = corpus.build_layout(case["layout"], case["x"],
                                                   oxt=case.get("oxt", True))
@@ -332,6 +337,11 @@ def enumerate_cases(tier, seed):
                          ["--neutraln", "--neutralc"]):
                 cases.append({"mode": "grid", "ff": "PARSE", "opts": opts,
                               "desc": {"x": x, "pos": pos}})
+    for name in corpus.MIXED:
+        for ff in corpus.FFS:
+            for opts in ([], ["--noopt", "--nodebump"]):
+                cases.append({"mode": "mixed", "ff": ff, "name": name,
+                              "opts": opts})
     lay_ffs = ["AMBER", "PARSE"] if tier == "quick" else corpus.FFS
     for ff in lay_ffs:
         for layout in corpus.LAYOUTS:
